@@ -116,22 +116,64 @@ Definition enc_ok (b : res bobs) : bool :=
    and the observation *)
 Inductive hres := HRet (r : bret) | HEnc (num denom : Z) (b : res bobs).
 
+(* What the caller has asked the object to hold, read off the ARGUMENTS of the calls that returned nil (not
+   off the object): the dims and samples of the last NewData (none after ClearData), the counter of the time
+   stamp handed to SetTimestamp as the caller has last set it (none after ResetTimestamp). *)
+Record expst := { x_shape : option (list Z); x_data : pdata; x_ts : option Z }.
+Definition exp0 : expst := {| x_shape := None; x_data := DNil; x_ts := None |}.
+Definition exp_step (e : expst) (o : bop) : expst :=
+  match o with
+  | BSetTs t _ => {| x_shape := x_shape e; x_data := x_data e; x_ts := Some t |}
+  | BResetTs => {| x_shape := x_shape e; x_data := x_data e; x_ts := None |}
+  | BClear => {| x_shape := None; x_data := DNil; x_ts := x_ts e |}
+  | BNewData d dims => {| x_shape := Some dims; x_data := d; x_ts := x_ts e |}
+  | BMutTs t => {| x_shape := x_shape e; x_data := x_data e;
+                   x_ts := match x_ts e with Some _ => Some t | None => None end |}
+  end.
+
+(* the decoded bytes carry the shape, samples and counter the caller asked for *)
+Definition exp_ok (e : expst) (b : res bobs) : bool :=
+  match b with
+  | Ok b =>
+      match b_dec b with
+      | ODOk _ a => opt_eqb zlist_eqb (a_shape a) (x_shape e) && payload_eqb (a_data a) (x_data e)
+                    && opt_eqb Z.eqb (a_ts a) (x_ts e)
+      | _ => false
+      end
+  | Panic => false
+  end.
+
+(* a filler: same shape and counter, as many samples of the same type (their values are MakePretendPacket's) *)
+Definition payload_like (decoded asked : pdata) : bool :=
+  if data_count asked =? 0 then data_count decoded =? 0 else same_kind_count decoded asked.
+Definition exp_ok_filler (e : expst) (b : res bobs) : bool :=
+  match b with
+  | Ok b =>
+      match b_dec b with
+      | ODOk _ a => opt_eqb zlist_eqb (a_shape a) (x_shape e) && payload_like (a_data a) (x_data e)
+                    && opt_eqb Z.eqb (a_ts a) (x_ts e)
+      | _ => false
+      end
+  | Panic => false
+  end.
+
 (* A history on one object and the objects derived from it.  EVERY encoding — of the object at any point of
    its life (after further constructor calls, after the caller advanced the time stamp it handed over, a
    second time in a row) and of a filler packet made from it by MakePretendPacket(seq, n), n <> 0 — must
-   decode to the CURRENT fields of the encoded object.  A constructor call that panics has not built anything
-   although it was asked to: rejected.  Once a call has returned an error the caller was told that nothing
-   was built: no claim from then on.  [clean] = no error so far. *)
-Fixpoint hist_check (clean : bool) (h : list (hop * hres)) : bool :=
+   decode to the CURRENT fields of the encoded object ([enc_ok]) and to what the caller last asked it to
+   hold ([exp_ok]).  A constructor call that panics has not built anything although it was asked to:
+   rejected.  Once a call has returned an error the caller was told that nothing was built: no claim from
+   then on.  [clean] = no error so far. *)
+Fixpoint hist_check (clean : bool) (e : expst) (h : list (hop * hres)) : bool :=
   match h with
   | [] => true
-  | (HOp _, HRet r) :: rest =>
-      if is_panic_ret r then false else hist_check (clean && negb (is_err_ret r)) rest
+  | (HOp o, HRet r) :: rest =>
+      if is_panic_ret r then false else hist_check (clean && negb (is_err_ret r)) (exp_step e o) rest
   | (HEncode, HEnc _ _ b) :: rest =>
-      (if clean then enc_ok b else true) && hist_check clean rest
+      (if clean then enc_ok b && exp_ok e b else true) && hist_check clean e rest
   | (HFiller _ n, HEnc _ _ b) :: rest =>
-      (if clean && negb (n =? 0) then enc_ok b else true) && hist_check clean rest
+      (if clean && negb (n =? 0) then enc_ok b && exp_ok_filler e b else true) && hist_check clean e rest
   | _ => false
   end.
 
-Definition build_check (h : list (hop * hres)) : bool := hist_check true h.
+Definition build_check (h : list (hop * hres)) : bool := hist_check true exp0 h.
